@@ -33,6 +33,8 @@ def gen_model(rng, size="small", feats=None):
     nv = rng.randint(1, 3 if size == "small" else 5)
     if size == "large":
         n, nv = rng.randint(30, 45), rng.randint(3, 5)
+    if size == "huge":
+        n, nv = rng.randint(130, 160), rng.randint(5, 6)
     p = lambda x: rng.random() < x  # noqa: E731
     F = {
         "capacity": p(0.6), "windows": p(0.5), "maxwait_stop": p(0.35), "maxwait_veh": p(0.3),
